@@ -362,9 +362,9 @@ def check_C04(tier, rng, rep):
         for fr in (("s2", "m2"), ("r1", "s1"), ("m1",)):
             jobs += region_jobs(U2, lambda k: [(POLY + CURVED[:1])[k % 4]], rng, per_universe=3, pred=proper, opts={"frame": fr, "via_api": True})
     else:
+        jobs = region_jobs(U2 + U3, POLY + CURVED + EXTRA, rng, pred=proper)
         for fr in (("s2", "m2"), ("r1", "s1"), ("m1",), ("r2", "M2", "S1")):
             jobs += region_jobs(U2 + U3, lambda k: [(POLY + CURVED)[k % 6]], rng, per_universe=12, pred=proper, opts={"frame": fr, "via_api": True})
-        jobs = region_jobs(U2 + U3, POLY + CURVED + EXTRA, rng, pred=proper)
         jobs += region_jobs(U2, ["poly-frac", "quad-float"], rng, pred=proper, opts={"frame": ("s2", "m2")})
     res = runner.pool_map(queries.moments_case, jobs)
     rep.add_results("moments", res)
